@@ -5,6 +5,8 @@ import (
 	"go/ast"
 	"go/token"
 	"go/types"
+	"strconv"
+	"strings"
 )
 
 // ASSERTTY: (*optionsParser).parseExpr(v, d) returns either a value of d's dynamic type or d
@@ -55,5 +57,76 @@ func ruleASSERTTY(c *Ctx) {
 	}
 	if n < 30 {
 		c.add(rule, "count:", token.NoPos, CountDropped, true, "only %d parseExpr assertions found in package compiler (>= 30 options confirmed by hand)", n)
+	}
+}
+
+// optionFieldExceptions: option keys whose Options field is not the capitalised key.
+var optionFieldExceptions = map[string]string{
+	"genCopyright":        "Copyright",
+	"abseilIncludePrefix": "AbslIncludePrefix",
+}
+
+// OPTIONMAP: every `case "<key>"` of the options switch assigns the field that belongs to the
+// key, and parses the value against that same field's default.
+func ruleOPTIONMAP(c *Ctx) {
+	const rule = "OPTIONMAP"
+	p := c.Pkg("compiler")
+	if p == nil {
+		c.Lost(rule, "compiler", "package not loaded")
+		return
+	}
+	n := 0
+	for _, f := range p.Syntax {
+		ast.Inspect(f, func(nd ast.Node) bool {
+			cc, ok := nd.(*ast.CaseClause)
+			if !ok || len(cc.List) != 1 {
+				return true
+			}
+			bl, ok := cc.List[0].(*ast.BasicLit)
+			if !ok || bl.Kind != token.STRING {
+				return true
+			}
+			key, _ := strconv.Unquote(bl.Value)
+			for _, st := range cc.Body {
+				as, ok := st.(*ast.AssignStmt)
+				if !ok || len(as.Lhs) != 1 || len(as.Rhs) != 1 {
+					continue
+				}
+				lhs, ok := as.Lhs[0].(*ast.SelectorExpr)
+				if !ok || types.ExprString(lhs.X) != "opts" {
+					continue
+				}
+				ta, ok := as.Rhs[0].(*ast.TypeAssertExpr)
+				if !ok {
+					continue
+				}
+				call, ok := ta.X.(*ast.CallExpr)
+				if !ok || len(call.Args) != 2 {
+					continue
+				}
+				if sel, ok := call.Fun.(*ast.SelectorExpr); !ok || sel.Sel.Name != "parseExpr" {
+					continue
+				}
+				n++
+				k := "compiler.options:" + key
+				def := types.ExprString(call.Args[1])
+				want := strings.ToUpper(key[:1]) + key[1:]
+				if ex, ok := optionFieldExceptions[key]; ok {
+					want = ex
+				}
+				switch {
+				case def != "opts."+lhs.Sel.Name:
+					c.Bad(rule, k, as.Pos(), "option %q assigns opts.%s but parses the value against the default of %s", key, lhs.Sel.Name, def)
+				case lhs.Sel.Name != want:
+					c.Bad(rule, k, as.Pos(), "option %q sets opts.%s; the option's own field is opts.%s (a grammar that sets %q silently changes another option)", key, lhs.Sel.Name, want, key)
+				default:
+					c.Ok(rule, k, as.Pos(), "sets opts.%s from its own default", lhs.Sel.Name)
+				}
+			}
+			return true
+		})
+	}
+	if n < 40 {
+		c.add(rule, "count:", token.NoPos, CountDropped, true, "only %d option assignments found (>= 40 confirmed by hand)", n)
 	}
 }
